@@ -341,7 +341,11 @@ def define_namespace_step(ns, arg, env, lineno=None):
     """
     name, raw = split_define(arg)
     reasons = []           # list of exceptions, all acceptable
-    if not isname(name):
+    # Names are case-insensitive: legality is judged on the lower-cased name, the form
+    # under which it is stored and looked up (the statement does not fix the order; the
+    # only strings affected are non-ASCII characters whose lower case is an ASCII letter,
+    # e.g. U+212A KELVIN SIGN).
+    if not isname(name.lower()):
         reasons.append(RefSyntax(lineno, "illegal define name"))
     key = name.lower()
     value = None
